@@ -185,6 +185,20 @@ def run_case(case):
                 for p_ in obj.parameters():
                     p_.add_(1e-3 * torch.randn(p_.shape, generator=gj))
             res.labels.append("relu_jitter")
+        if target == "sample":
+            with torch.no_grad():
+                try:
+                    torch.manual_seed(case["seed"] + 9)
+                    smp0, lp0 = obj.sample_and_log_prob(2, C)
+                except Exception:
+                    smp0 = None
+            if smp0 is None or not bool(torch.isfinite(smp0).all()) or not bool(torch.isfinite(lp0).all()) or float(smp0.abs().max()) > 1e3 \
+                    or float(lp0.abs().max()) > 200:
+                # the sampling direction runs through saturation (LeakyReLU^-1 stretches by 100, then sigmoid, then tan): the draws are
+                # astronomically large and insensitive to 1e-6 steps
+                res.labels.append("astronomical_samples")
+                res.inconclusive += 1
+                return res
         params = [(nm, p) for nm, p in obj.named_parameters() if p.requires_grad]
         Xr = X.clone().requires_grad_(True)
         Cr = C.clone().requires_grad_(True) if C is not None else None
